@@ -2,3 +2,4 @@ pub mod core;
 pub mod oracle;
 pub mod gen;
 pub mod props;
+pub mod store_kit;
